@@ -221,6 +221,10 @@ func (g *G) Expr(t string, d int) string {
 			}
 			return g.pick(fmt.Sprintf("Fast(%s, %s)", g.Expr("int", d-1), g.Expr("string", d-1)), "Fast()", "Fail()")
 		case 6:
+			if g.r.Intn(2) == 0 {
+				// nil-safe method call on a receiver that is nil at run time (arguments are still evaluated)
+				return g.pick(fmt.Sprintf("Z?.Foo(%s)", g.Expr("int", d-1)), "Z?.Bar()", fmt.Sprintf("M.n?.Foo(%s, %s)", g.Expr("int", d-1), g.Expr("string", d-1)), "M?.zz?.Foo(1)")
+			}
 			return fmt.Sprintf("(%s ?: %s)", g.Expr("bool", d-1), g.Expr("int", d-1))
 		default:
 			return g.Expr(g.pick("int", "string", "bool", "float", "ints", "anys"), d-1)
@@ -271,7 +275,7 @@ func (g *G) leaf(t string) string {
 		if g.depth > 0 && g.elem[len(g.elem)-1] == "string" && g.r.Intn(3) == 0 {
 			return "#"
 		}
-		return g.pick(`"a"`, `"abc"`, `""`, `'lo'`, "S", "T", "S", "T", `"x\ty"`)
+		return g.pick(`"a"`, `"abc"`, `""`, `'lo'`, "S", "T", "S", "T", `"x\ty"`, `"^a"`, `"bc$"`)
 	case "bool":
 		return g.pick("true", "false", "B", "C", "B", "C")
 	case "ints":
